@@ -27,7 +27,6 @@ import (
 	"path/filepath"
 	"runtime"
 	"runtime/metrics"
-	"runtime/pprof"
 	"strconv"
 	"strings"
 	"sync"
@@ -1179,11 +1178,6 @@ func childMain() {
 	c.res.Counters = map[string]int64{}
 	c.sample[0].Name = "/gc/heap/allocs:bytes"
 	seed := vf.Seed()
-	if pf := os.Getenv("C25_PROF"); pf != "" {
-		fh, _ := os.Create(pf)
-		pprof.StartCPUProfile(fh)
-		defer pprof.StopCPUProfile()
-	}
 	if giantIdx >= 0 {
 		g := giants()[giantIdx]
 		data := g.Build()
@@ -1201,7 +1195,6 @@ func childMain() {
 		fmt.Fprintln(os.Stderr, "child: result:", err)
 		os.Exit(90)
 	}
-	pprof.StopCPUProfile()
 	os.Exit(0)
 }
 
